@@ -11,6 +11,7 @@ import (
 	"sort"
 	"strings"
 	"sync"
+	"sync/atomic"
 	"time"
 
 	"github.com/ngicks/gokugen/cron"
@@ -43,6 +44,7 @@ type callGrant struct {
 }
 
 type sproxy struct {
+	fv         *faultyVolatile
 	coreFaults bool
 	nfault     int
 	inner      scheduler.Repository
@@ -155,6 +157,14 @@ func (p *sproxy) MarkAsDispatched(ctx context.Context, id string) error {
 		r.done <- resTerm(err)
 		return err
 	}
+	if g.fault == 1 && p.fv != nil {
+		// cron / volatile configuration: the store's Pop fails (if the call gets that far)
+		p.fv.failPop.Store(true)
+		err := p.inner.MarkAsDispatched(ctx, id)
+		p.fv.failPop.Store(false)
+		r.done <- resTerm(err)
+		return err
+	}
 	if g.fault == 1 {
 		r.done <- "(RRes (RErr EOther))"
 		return p.faultErr()
@@ -260,6 +270,7 @@ type sysRun struct {
 	kinds          []string // kind of every faultable call seen before quiescence
 
 	vmode   bool
+	fv      *faultyVolatile
 	scrib   bool
 	ended   bool
 	cg      *cronGen
@@ -279,7 +290,7 @@ func (s *sysRun) log(l string) {
 		case strings.HasPrefix(l, "LCall "):
 			// LCall <term> <fault> <hf> <ret>
 			rest := strings.TrimPrefix(l, "LCall ")
-			for _, f := range []string{" FNone false ", " FNone true "} {
+			for _, f := range []string{" FNone false ", " FNone true ", " FBefore false ", " FBefore true "} {
 				if i := strings.Index(rest, f); i >= 0 {
 					rest = rest[:i] + " " + rest[i+len(f):]
 					break
@@ -435,6 +446,20 @@ func (s *sysRun) workFn(kind string) *def.WorkFn {
 
 type panicString string
 
+// faultyVolatile: the cron store as the volatile repository sees it, with a Pop that may fail transiently before taking
+// effect (-vfaults; CronStore's own Pop never does). No model follows faults in this configuration: predicate-only.
+type faultyVolatile struct {
+	*cron.CronStore
+	failPop atomic.Bool
+}
+
+func (f *faultyVolatile) Pop(ctx context.Context) (def.Task, error) {
+	if f.failPop.Swap(false) {
+		return def.Task{}, errFault
+	}
+	return f.CronStore.Pop(ctx)
+}
+
 var taskStateRe = regexp.MustCompile(`\(RTask \(mkTask "[^"]*" "[^"]*" \(?-?\d+\)? (\w+) `)
 
 // dproxy announces every Dispatch to the harness before it is made: with every worker busy the dispatch will wait for a
@@ -484,11 +509,11 @@ func newSysRunOn(impl string, r *rand.Rand, stats map[string]int, faults bool) *
 
 // newVSysRun: the cron / volatile configuration. Entries come from the cron generator; user operations are
 // cron edits; ids are the store's own uuids.
-func newVSysRun(r *rand.Rand, stats map[string]int, scrib bool) *sysRun {
+func newVSysRun(r *rand.Rand, stats map[string]int, scrib bool, vfaults bool) *sysRun {
 	start := cq.Epoch.Add(time.Duration(r.Intn(86400)) * time.Second)
 	s := &sysRun{r: r, stats: stats, now: start, gates: map[string]chan struct{}{}, workOf: map[string]string{},
 		starts: make(chan workStart, 16), startReqs: make(chan startReq, 64), running: map[string]bool{}, accepted: map[string]bool{},
-		stepDone: make(chan stepOutcome, 1), stepCancel: map[string]context.CancelFunc{}, vmode: true, scrib: scrib}
+		stepDone: make(chan stepOutcome, 1), stepCancel: map[string]context.CancelFunc{}, vmode: true, scrib: scrib, faults: vfaults, faultsOn: vfaults}
 	s.clock = vclock.New(start)
 	mutator.VerifSetClock(s.clock)
 	s.cg = &cronGen{r: r, clock: s.clock, now: start, eidOf: map[*cron.Entry]int{}, mode: "vsys", stats: stats, scrib: scrib}
@@ -510,8 +535,9 @@ func newVSysRun(r *rand.Rand, stats map[string]int, scrib bool) *sysRun {
 		return s
 	}
 	s.cg.store = store
-	vrepo := scheduler.NewVolatileTaskRepo(store)
-	s.proxy = &sproxy{inner: vrepo, calls: make(chan *callReq), fireCh: make(chan time.Time)}
+	s.fv = &faultyVolatile{CronStore: store}
+	vrepo := scheduler.NewVolatileTaskRepo(s.fv)
+	s.proxy = &sproxy{inner: vrepo, fv: s.fv, calls: make(chan *callReq), fireCh: make(chan time.Time)}
 	reg := mapRegistry{"ok": s.workFn("ok"), "err": s.workFn("err"), "panic": s.workFn("panic"), "block": s.workFn("block"), "dl": s.workFn("dl")}
 	s.disp = workerpool.NewWorkerPoolDispatcher(reg)
 	s.workers = 16
@@ -679,6 +705,13 @@ func (s *sysRun) beginStep() {
 func (s *sysRun) chooseFault(kind string) callGrant {
 	var g callGrant
 	if !s.faultsOn {
+		return g
+	}
+	if s.vmode {
+		if kind == "markdisp" && s.r.Intn(5) == 0 {
+			g.fault = 1
+			s.stats["fault:volatile-pop"]++
+		}
 		return g
 	}
 	if s.planned {
@@ -1086,6 +1119,7 @@ func sysMain(args []string) {
 	out := fs.String("out", "", "output .v")
 	statsOut := fs.String("stats", "", "stats json")
 	coreFaults := fs.Bool("core-faults", false, "with -faults: a failing MarkAsDispatched is the CORE repository's failure (before or after taking effect), seen by the observable wrapper as well; there is no model for this placement: only the trace predicates are evaluated")
+	vfaults := fs.Bool("vfaults", false, "volatile configuration: the store's Pop sometimes fails transiently inside MarkAsDispatched (no model for faults there: predicate-only)")
 	impl := fs.String("impl", "inmem", "core repository under the hook timer: inmem | ent (ent: predicate-only suites)")
 	cancelInFetch := fs.Bool("cancel-in-fetch", false, "the dispatch context is sometimes cancelled right after the fetcher's GetById succeeded (the run then ends cancelled without starting); no model label exists for that: only the trace predicates are evaluated")
 	userHookFaults := fs.Bool("user-hook-faults", false, "exploration (not used by registered suites): with -faults, the hook's nested GetNext may also fail during the user's own mutations; see DESIGN.md §6, observation O3")
@@ -1152,7 +1186,7 @@ func sysMain(args []string) {
 			s = newSysRun(rand.New(rand.NewSource(jb.seed)), stats, true)
 			s.planned, s.plan = true, jb.plan
 		} else if *volatile {
-			s = newVSysRun(r, stats, *scribble)
+			s = newVSysRun(r, stats, *scribble, *vfaults)
 		} else {
 			s = newSysRunOn(*impl, r, stats, *faults)
 			s.userHookFaults = *userHookFaults
